@@ -70,6 +70,13 @@ class Normalizer:
         self.rename = rename or (lambda s: s)
 
     def path_atom(self, p):
+        # expand call-result roots:  *{ret:23}  ->  *{callee(args)}
+        if p and p[0][0] == "S" and isinstance(p[0][1], str):
+            name = p[0][1]
+            base = name[2:] if name.startswith("m:") else name
+            for k, (callee, args) in self.it.ret_info.items():
+                if base == k or base.startswith(k + "@") or base.startswith(k + "."):
+                    return "*{%s%s}%s" % (self.call_atom(callee, args), base[len(k):], absint.pstr(p[1:]))
         return self.rename(absint.pstr(p))
 
     def value_atom(self, v):
